@@ -167,7 +167,7 @@ theorem Good.runCmd (G : Good cfg R) (s : S α) (c : Cmd) (src pt : Int) : R s (
   split
   · exact G.foldl _ (fun s t => G.heal s src t) _ _
   split
-  · exact G.hpPrim s _ _
+  · exact G.foldl _ (fun s t => G.hpPrim s t src) _ _
   split
   · exact G.silent (by rfl) (by rfl) (by rfl) (by rfl)
   split
